@@ -73,6 +73,9 @@ type Knobs struct {
 	// Latches > 0: every store runs with the local latch scheduler of that many slots (optimistic transactions of one
 	// store serialise their commits on it and are refused as stale when a newer commit passed)
 	Latches int `json:"latches,omitempty"`
+	// InnerSplits: a split attached to a request cuts its region at a key strictly INSIDE it where one exists (the keys
+	// of one request end up on both sides), not at the request's first key
+	InnerSplits bool `json:"inner_splits,omitempty"`
 }
 
 // delaySites: failpoints of the library whose handler sleeps OUTSIDE the failpoint package (a `sleep(n)` term sleeps
